@@ -24,6 +24,7 @@ RULE = ("graphs: G(n,p) n<=60 (6%: 260..700 vertices) incl. edgeless and disconn
         "{0, 0.05, .15, .3, .5, .7, .8, .95, 1} + random; seeded draws and scripted draws (all 0.0 / all 1-2^-53); statistical cases: star with "
         "12 leaves and two disjoint stars with 6 leaves each at phi in {.15,.5,.8}, and a MultiGraph star whose leaves hang on two parallel edges each (phi in {.3,.6}); non-trivial = >= 2 edges and 0 < phi < 1; "
         "distinct = SHA-1 of (graph, phi, schedule)")
+RULE += ("; rounds k-l added: " + '15% of the graphs (<= 60 vertices) on signed / one-hash / half-integer labels')
 ASSUMPTIONS = ["per-edge exactness needs the draw pattern 'one random.random() per edge of the copy, in edge order' (observed per run; otherwise only the "
                "structural and statistical clauses decide)", "chi-square two-stage protocol"]
 HEADLINE = ["graphs_with_labels_of_mixed_type", "calls", "per_edge_exact_checks", "edges_decided", "structure_checks", "phi0_checks", "phi1_checks", "scripted_zero", "scripted_one",
